@@ -283,7 +283,7 @@ def run(ctx):
         runs = [(ctx.seed, 2500, 45, []), (ctx.seed + 1, 2500, 45, ["--segments", "1"]), (ctx.seed + 2, 3000, 45, ["--segments", "6"]),
                 (ctx.seed + 3, 1200, 45, [])]
     else:
-        runs = [(ctx.seed + i, d, 150, x) for i, (d, x) in enumerate([(2500, []), (2500, ["--segments", "1"]), (3000, ["--segments", "6"]), (1200, []),
+        runs = [(ctx.seed + i, d, 400, x) for i, (d, x) in enumerate([(2500, []), (2500, ["--segments", "1"]), (3000, ["--segments", "6"]), (1200, []),
                                                                          (6000, ["--segments", "2"]), (4000, []), (4000, ["--segments", "3"]), (800, ["--segments", "5"]),
                                                                          (5000, ["--segments", "4", "--threads", "8"]), (2000, []), (3500, []), (3000, ["--segments", "1"])])]
     sev = searches(ctx, runs)
